@@ -244,6 +244,25 @@ func c05Seq(tier string) []SeqJob {
 		}
 		out = append(out, SeqJob{Name: fmt.Sprintf("seq/setbuf%d/depth%d", sb, depth[sb]), Spec: spec, Seconds: secs})
 	}
+	// lean alphabet with the compound drain event: long alternations Del / Set / Del on one key
+	// (repeated tombstones of the same key with a Set in between) within the depth bound
+	{
+		lean := []Op{{K: "set", Key: 1, Cost: 1}, {K: "del", Key: 1}, {K: "drain"}, {K: "wait"}, {K: "get", Key: 1}}
+		d := 9
+		if tier == "thorough" {
+			d = 12
+		}
+		spec := &SeqSpec{
+			Cfg:      Cfg{NumCounters: 16, MaxCost: 4, BufferItems: 2, SetBuf: 4},
+			MaxDepth: d,
+			Alphabet: func(r *SeqRun) []Op { return lean },
+			Oracle: func(r *SeqRun) []Viol {
+				return delWinsLog(r.Events, func(k int64) (bool, bool) { return storeHas(r, k) }, "C05")
+			},
+			Abstract: func(r *SeqRun, ren func(int64) int64) string { return delAbstract(r.Events, ren) },
+		}
+		out = append(out, SeqJob{Name: fmt.Sprintf("seq/lean/setbuf4/depth%d", d), Spec: spec, Seconds: secs})
+	}
 	return out
 }
 
